@@ -416,6 +416,37 @@ def voxel_concrete(ctx, grid, samples, cubes):
     ctx.check_true('filled.some', any(f == 1 for f in filled))
 
 
+@scenario('C20', fns=['voxelize.voxelize', '_voxelize.generate_voxel_grid', '_voxelize.find_inouts_st',
+                      '_voxelize.is_point_inside_voxel', 'linalg.frange'],
+          quick=[dict(grid=[3, 2, 2], samples=3, cubes=False, axis=2), dict(grid=[3, 2, 2], samples=3, cubes=True, axis=2),
+                 dict(grid=[2, 3, 2], samples=2, cubes=True, axis=0)])
+def voxel_flat(ctx, grid, samples, cubes, axis):
+    """requires: a bilinear patch lying in a coordinate plane (its bounding box is flat along `axis`), sampled on a
+                 samples^2 lattice; cuboid voxels or cubes
+       ensures : voxelize returns; the voxels cover the bounding box; filled[k] = 1 iff some sampled point lies in voxel k"""
+    vx = ctx.geomdl('voxelize')
+    a0, a1 = [a for a in range(3) if a != axis]
+    h = ctx.lit(Fraction(1, 2))
+    P = []
+    for u in range(2):
+        for v in range(2):
+            pt = [h, h, h]
+            pt[a0] = ctx.lit(Fraction(3 * u, 1))
+            pt[a1] = ctx.lit(Fraction(2 * v, 1))
+            P.append(pt)
+    kv = [ctx.lit(0), ctx.lit(0), ctx.lit(1), ctx.lit(1)]
+    srf = shapes.build_surface(ctx, 1, 1, kv, list(kv), P, 2, 2)
+    srf.sample_size = samples
+    pts = [list(p) for p in srf.evalpts]
+    g, filled = vx.voxelize(srf, grid_size=tuple(grid), use_cubes=cubes)
+    lo = [min(p[a] for p in P) for a in range(3)]
+    hi = [max(p[a] for p in P) for a in range(3)]
+    _check_cover(ctx, g, [lo, hi])
+    ctx.check_true('samples.all_in_some_voxel', all(any(_inside(p, a, b, VOX_TOL) for a, b in g) for p in pts))
+    _check_filled(ctx, g, filled, pts, VOX_TOL)
+    ctx.check_true('filled.some', any(f == 1 for f in filled))
+
+
 # ------------------------------------------------------------------------------------------------
 # control points that are active at a parameter
 # ------------------------------------------------------------------------------------------------
